@@ -23,6 +23,7 @@ class Built:
         self.nodes: list[ir.Node] = []
         self.graphs: list[ir.Graph] = []
         self.nid: dict[int, int] = {}  # id(node) -> node id
+        self.detached: list[ir.Node] = []  # nodes that are in no graph when the sort runs
         self.keepalive: list[Any] = []
 
 
@@ -67,18 +68,41 @@ def build(spec: G.Spec, variant: str = "A", seed: int = 0) -> Built:
             o.name = f"n{nid}_o{k}"
         nodes[nid] = node
 
+    dspec = spec.get("detached", [])
+    dnodes: list[Any] = [None] * len(dspec)
+
+    def make_detached(did: int) -> None:
+        d = dspec[did]
+        node = ir.Node("", "Detached", inputs=[None] * len(d["inputs"]), num_outputs=d["nout"], name=f"d{did}")
+        for k, o in enumerate(node.outputs):
+            o.name = f"d{did}_o{k}"
+        dnodes[did] = node
+
     def make_graph(gid: int) -> None:
-        graphs[gid] = ir.Graph(ginputs[gid], [], nodes=[nodes[x] for x in gspec[gid]["order"]], name=f"g{gid}")
+        members = [nodes[x] for x in gspec[gid]["order"]]
+        # nodes that will be taken out again with the non-safe remove() start inside the graph
+        for did, d in enumerate(dspec):
+            if d["how"] == "removed" and d["scope"] == gid:
+                members.insert(min(d["pos"], len(members)), dnodes[did])
+        graphs[gid] = ir.Graph(ginputs[gid], [], nodes=members, name=f"g{gid}")
+
+    def detach_removed() -> None:
+        for did, d in enumerate(dspec):
+            if d["how"] == "removed" and dnodes[did].graph is not None:
+                graphs[d["scope"]].remove(dnodes[did])  # default safe=False: keeps its inputs
 
     if variant == "A":
         for nid in range(len(nspec)):
             make_node(nid)
+        for did in range(len(dspec)):
+            make_detached(did)
         for gid in range(len(gspec)):
             make_graph(gid)
         for nid, n in enumerate(nspec):
             for name, kind, gids in n["attrs"]:
                 nodes[nid].attributes[name] = _attr(name, kind, gids, graphs)
         wiring = [(nid, k) for nid, n in enumerate(nspec) for k in range(len(n["inputs"]))]
+        wiring += [(-1 - did, k) for did, d in enumerate(dspec) for k in range(len(d["inputs"]))]
     elif variant == "B":
         order = list(range(len(nspec)))
         rng.shuffle(order)
@@ -86,6 +110,8 @@ def build(spec: G.Spec, variant: str = "A", seed: int = 0) -> Built:
             b.keepalive.append([object() for _ in range(rng.randrange(8))])
             b.keepalive.append(ir.Value(name="junk"))
             make_node(nid)
+        for did in reversed(range(len(dspec))):
+            make_detached(did)
         for gid in reversed(range(len(gspec))):
             b.keepalive.append(ir.Graph([], [], nodes=[], name="junk"))
             make_graph(gid)
@@ -93,25 +119,41 @@ def build(spec: G.Spec, variant: str = "A", seed: int = 0) -> Built:
             for name, kind, gids in n["attrs"]:
                 nodes[nid].attributes[name] = _attr(name, kind, gids, graphs)
         wiring = [(nid, k) for nid, n in enumerate(nspec) for k in range(len(n["inputs"]))]
+        wiring += [(-1 - did, k) for did, d in enumerate(dspec) for k in range(len(d["inputs"]))]
         rng.shuffle(wiring)
+        if rng.random() < 0.5:
+            detach_removed()  # (removal before the inputs are connected: same final state)
     elif variant == "C":
         depth = G.graph_depths(spec)
+        for did in range(len(dspec)):
+            make_detached(did)
         for gid in sorted(range(len(gspec)), key=lambda g: (-depth[g], g)):
             for nid in gspec[gid]["order"]:
                 make_node(nid, [_attr(name, kind, gids, graphs) for name, kind, gids in nspec[nid]["attrs"]])
             make_graph(gid)
-        wiring = [(nid, k) for nid, n in reversed(list(enumerate(nspec))) for k in range(len(n["inputs"]))]
+        wiring = [(-1 - did, k) for did, d in enumerate(dspec) for k in range(len(d["inputs"]))]
+        wiring += [(nid, k) for nid, n in reversed(list(enumerate(nspec))) for k in range(len(n["inputs"]))]
     else:
         raise AssertionError(variant)
 
     for nid, k in wiring:
-        ref = nspec[nid]["inputs"][k]
+        user = nodes[nid] if nid >= 0 else dnodes[-1 - nid]
+        ref = (nspec[nid] if nid >= 0 else dspec[-1 - nid])["inputs"][k]
         if ref is None:
             continue
-        value = nodes[ref[1]].outputs[ref[2]] if ref[0] == "n" else ginputs[ref[1]][ref[2]]
-        nodes[nid].replace_input_with(k, value)
+        if ref[0] == "n":
+            value = nodes[ref[1]].outputs[ref[2]]
+        elif ref[0] == "d":
+            value = dnodes[ref[1]].outputs[ref[2]]
+        else:
+            value = ginputs[ref[1]][ref[2]]
+        user.replace_input_with(k, value)
+    detach_removed()
+    for did, node in enumerate(dnodes):
+        if node.graph is not None:
+            raise RuntimeError(f"C12 harness: detached node d{did} is still in a graph")
 
-    b.nodes, b.graphs = nodes, graphs
+    b.nodes, b.graphs, b.detached = nodes, graphs, dnodes
     b.nid = {id(n): k for k, n in enumerate(nodes)}
     return b
 
